@@ -25,6 +25,7 @@ ASSUMPTIONS = ["T is union-free or Optional-only (the statement's domain)", "dat
 TECHNIQUE = "property-based testing: identity law on adversarially biased valid values + idempotence (metamorphic) law on arbitrary inputs"
 LEVEL_TEXT = ("Exploration over generated union-free annotations: valid instances must come back class-exact and equal; "
               "any input that unmarshals once must unmarshal to the same value again.")
+RULE_EXTRA = "valid values reach the unmarshaller by three routes (function, routine object, codec step); two per program also after a handled failure on the same object"
 LEVEL_NOTE = "trusts the universe's value generator to produce valid instances made of exactly the annotated classes"
 
 
